@@ -27,18 +27,57 @@ package har
 //@    (forall e *Entry :: inLog(l, e) && e != l.tail ==> inLog(l, e.next) && e.arr < e.next.arr &&
 //@         (forall m *Entry :: inLog(l, m) ==> m.arr <= e.arr || e.next.arr <= m.arr))
 
+// C16: the scalar fields of a HAR request / response entry are those of the message; post data and content come from
+// the (de-framed, for responses decoded) snapshot. Header, cookie and query lists are built by helpers that are assumed.
+//@ ghost var harURL string
+//@ ghost var lastPostData *PostData
+//@ ghost var lastBodyRead []byte
+//@ extern func (*net/url.URL).String
+//@   modifies harURL
+//@   ensures harURL == result
+//@ extern func ioutil.ReadAll
+//@   modifies lastBodyRead
+//@   ensures result1 == nil ==> lastBodyRead == result0
+//@ func headers
+//@   trusted
+//@ func cookies
+//@   trusted
+//@ extern func proxyutil.RequestHeader
+//@   ensures result != nil
+//@ extern func proxyutil.ResponseHeader
+//@   ensures result != nil
+//@ extern func (*proxyutil.Header).Map
 //@ func NewRequest
-//@   trusted
-//@   modifies http.Request.Body
+//@   serves C16
+//@   requires req != nil && req.URL != nil && req.Header != nil
+//@   modifies http.Request.Body, messageview.MessageView.*, mvReadSrc, mvReadData, mvReaderData, mvReader, mvNopSrc, mvNop, bodyFramed, harURL, lastPostData, lastBodyRead
+//@   noframe
 //@   ensures (result1 == nil) == (result0 != nil)
+//@   ensures[request-line-fields-are-those-of-the-request] result1 == nil ==> result0.Method == req.Method && result0.HTTPVersion == req.Proto && result0.URL == harURL
+//@   ensures[sizes-are-those-of-the-request] result1 == nil ==> result0.BodySize == req.ContentLength && result0.HeadersSize == -1
+//@   ensures[post-data-is-what-the-capture-returned] result1 == nil ==> result0.PostData == lastPostData
+//@   loop 0 invariant true
+//@   loop 1 invariant true
+//@   at call 0 of postData after set lastPostData = result0
 //@ func NewResponse
-//@   trusted
-//@   modifies http.Response.Body
+//@   serves C16
+//@   requires res != nil && res.Header != nil
+//@   modifies http.Response.Body, messageview.MessageView.*, mvReadSrc, mvReadData, mvReaderData, mvReader, mvNopSrc, mvNop, bodyFramed, lastBodyRead
+//@   noframe
 //@   ensures (result1 == nil) == (result0 != nil)
+//@   ensures[status-line-fields-are-those-of-the-response] result1 == nil ==> result0.Status == res.StatusCode && result0.StatusText == http.StatusText(res.StatusCode) && result0.HTTPVersion == res.Proto
+//@   ensures[sizes-are-those-of-the-response] result1 == nil ==> result0.BodySize == res.ContentLength && result0.HeadersSize == -1
+//@   ensures[redirect-url-only-for-3xx] result1 == nil ==> result0.RedirectURL == ite(res.StatusCode >= 300 && res.StatusCode < 400, firstHdr(res.Header, "Location"), "")
+//@   ensures[content-type-recorded] result1 == nil ==> result0.Content != nil && result0.Content.MimeType == firstHdr(res.Header, "Content-Type")
+//@   ensures[captured-content-is-the-decoded-body-with-its-true-size] result1 == nil && withBody ==> result0.Content.Text == lastBodyRead && result0.Content.Size == len(lastBodyRead) && !bodyFramed
+//@   ensures[no-capture-leaves-the-body-alone] !withBody ==> res.Body == old(res.Body) && result1 == nil
+//@ extern func (http.Header).Get
+//@   ensures result == firstHdr(self, key)
+//@ pred firstHdr(h http.Header, k string) = ite(has(h, http.CanonicalHeaderKey(k)) && len(h[http.CanonicalHeaderKey(k)]) > 0, h[http.CanonicalHeaderKey(k)][0], "")
 
 //@ func (*Logger).RecordRequest
 //@   serves C17
-//@   requires harInv(l) && !l.mu.held && l.postDataLogging != nil && req != nil
+//@   requires harInv(l) && !l.mu.held && l.postDataLogging != nil && req != nil && req.URL != nil && req.Header != nil
 //@   modifies l.entries[*], l.tail, Entry.next, Entry.arr, harClock, l.mu.held, http.Request.Body
 //@   noframe
 //@   ensures[invariant-kept] harInv(l) && !l.mu.held
@@ -56,7 +95,7 @@ package har
 
 //@ func (*Logger).RecordResponse
 //@   serves C17
-//@   requires harInv(l) && !l.mu.held && l.bodyLogging != nil && res != nil
+//@   requires harInv(l) && !l.mu.held && l.bodyLogging != nil && res != nil && res.Header != nil
 //@   modifies Entry.Response, Entry.Time, l.mu.held, http.Response.Body
 //@   noframe
 //@   ensures[invariant-kept] harInv(l) && !l.mu.held
@@ -153,14 +192,14 @@ package har
 // C15: the HAR logger skips exchanges marked skip-logging: the log and the message are untouched.
 //@ func (*Logger).ModifyRequest
 //@   serves C15
-//@   requires harInv(l) && !l.mu.held && l.postDataLogging != nil && req != nil && linked(req)
+//@   requires harInv(l) && !l.mu.held && l.postDataLogging != nil && req != nil && req.URL != nil && req.Header != nil && linked(req)
 //@   modifies l.entries[*], l.tail, Entry.next, Entry.arr, harClock, l.mu.held, http.Request.Body, martian.ctxmu.rheld, sync.RWMutex.rheld
 //@   noframe
 //@   ensures[skip-logging-leaves-log-and-message-untouched] skipMarked(req) ==> result == nil && req.Body == old(req.Body) && l.tail == old(l.tail) &&
 //@        (forall k string :: has(l.entries, k) == old(has(l.entries, k)) && l.entries[k] == old(l.entries[k]))
 //@ func (*Logger).ModifyResponse
 //@   serves C15
-//@   requires harInv(l) && !l.mu.held && l.bodyLogging != nil && res != nil && linked(res.Request)
+//@   requires harInv(l) && !l.mu.held && l.bodyLogging != nil && res != nil && res.Header != nil && linked(res.Request)
 //@   modifies Entry.Response, Entry.Time, l.mu.held, http.Response.Body, martian.ctxmu.rheld, sync.RWMutex.rheld
 //@   noframe
 //@   ensures[skip-logging-leaves-log-and-message-untouched] skipMarked(res.Request) ==> result == nil && res.Body == old(res.Body) &&
